@@ -1088,10 +1088,53 @@ fn permutations(n: usize) -> Vec<Vec<u64>> {
     out
 }
 
+/// One scene with `nobj` well separated objects (a grid with 100 px pitch, 1-2 px of motion per frame, every object
+/// detected in every frame): the tracker issues more than 256 ids in the first frame and CONTINUES the tracks with
+/// large ids in the later frames, so every shard count must route ids >= 256 consistently.
+fn gen_c05_crowd(rng: &mut Rng, visual: bool, nobj: usize, frames: usize) -> (Vec<Call>, i64) {
+    let cols = 24usize;
+    let vel: Vec<(f32, f32)> = (0..nobj).map(|_| (rng.dyadic(-4, 4, 2), rng.dyadic(-4, 4, 2))).collect();
+    let mut calls = vec![];
+    for f in 0..frames {
+        let mut ds: Vec<CDet> = (0..nobj)
+            .map(|j| CDet {
+                x: 100.0 * (j % cols) as f32 + vel[j].0 * f as f32,
+                y: 100.0 * (j / cols) as f32 + vel[j].1 * f as f32,
+                aspect: 0.625,
+                h: 32.0,
+                conf: 1.0,
+                feat: if visual {
+                    let serial = (f * nobj + j) as u32;
+                    Some(vec![3.0 * (j % cols) as f32 + (serial % 251) as f32 / 1021.0, 3.0 * (j / cols) as f32 + (serial % 241) as f32 / 2039.0])
+                } else {
+                    None
+                },
+            })
+            .collect();
+        rng.shuffle(&mut ds);
+        calls.push((5u64, ds));
+    }
+    // own IoU after 1 px of motion in each axis is > 0.9, every other box is at least 96 px away
+    (calls, 600)
+}
+
 fn gen_c05(seed: u64, n: usize, tier: &str) {
     let mut rng = Rng::new(seed ^ 0xC05);
     let thorough = tier == "thorough";
     let nh = if thorough { 4 * n } else { n };
+    // long-id histories: one per tracker kind
+    for (i, kind) in ["sort", "visual"].iter().enumerate() {
+        let nobj = 264 + rng.below(24) as usize;
+        let (calls, margin) = gen_c05_crowd(&mut rng, *kind == "visual", nobj, if thorough { 5 } else { 3 });
+        let h = 1000 + i;
+        for shards in 1..=8usize {
+            c05_run(kind, h, &calls, margin, shards, "free", None, 0);
+        }
+        c05_run(kind, h, &calls, margin, 3, "perm:2.0.1", Some(vec![2, 0, 1]), 0);
+        if thorough {
+            c05_run(kind, h, &calls, margin, 5, "rand:7", None, 7);
+        }
+    }
     for h in 0..nh {
         let kind = if h % 2 == 1 { "visual" } else { "sort" };
         // a history whose margin is too small is the generator's failure, not the implementation's: draw again
